@@ -152,6 +152,41 @@ CLAIMED = {
          "output_length bytes, that HmacPRF passes its declared length and hash, that no randomness/time/state is read, and "
          "that guards and registries refuse. Equality with an independent implementation on concrete values is NOT computed.",
          "Trusted: CPython's ast parser, sa/straight.py, sa/props/c16.py; hmac/hashlib are deterministic implementations."),
+ "C17": ("writer/reader slot comparison of the small codecs (ast patterns on 12 functions)",
+         "Decides agreement between each encoder and its decoder: partition steps/joins/right-pads with the zero byte to the "
+         "block size and refuses too-small blocks, the parser reads strides from the left and stops at an all-zero entry of the "
+         "entry's length (same pad byte) before collecting it, parse-by-count derives the stride as len // count; split checks "
+         "the total before cutting consecutive pieces from running sums; int conversions share one byte order and the minimal "
+         "width; leading zeros go on the side the decoder ignores; xor is positional; converters match the advertised formats. "
+         "Round-trip equality over all values follows only informally and is NOT proved.",
+         "Trusted: CPython's ast parser and sa/props/c17.py. These rules compare normalised statement text of very small "
+         "functions; a behaviour-preserving rewrite of one of them may need the rule table to be updated (stated limitation)."),
+ "C18": ("use-def comparison of each Bitset operator with the fixed-width model + float-taint scan",
+         "Decides the width bookkeeping of toolkit.bits: no float (math.log, true division) flows into a width, shift or mask - "
+         "the minimal width comes from int.bit_length; and/or/xor take the longer width; invert and left shift are masked to "
+         "the width; concat shifts the left operand by the right one's length and adds lengths; higher/lower k bits shift by "
+         "length - k and have width k; bytes is ceil(length/8) big-endian; guards refuse out-of-range k, over-wide values and "
+         "non-Bitset operands; the halving helpers split at (n+1)//2. Agreement with the list-of-bits model on all values is "
+         "NOT decided.",
+         "Trusted: CPython's ast parser, sa/straight.py, sa/props/c18.py."),
+ "C19": ("index-provenance dataflow, try/except shape of the rollback, marker totality as set inclusion, file-name provenance",
+         "Decides four structural preconditions of list-equivalence: every index that reaches the index->(file, offset) mapping "
+         "is an element of range(*slice.indices(len)) or passed the bounds guard and was normalised (% len), identically in "
+         "__getitem__ and __setitem__; slice assignment records each old item before overwriting, restores all in a catch-all "
+         "handler and re-raises, with type/size checks before any write; every operation the wrapper performs on the underlying "
+         "array is bound to the closed marker's raising function and close/release install the marker in a finally; only "
+         "<path>_meta and <path>_<k> are opened/unlinked; deletion is zero-fill through __setitem__ over the full range with no "
+         "shortcut overrides. Equivalence over operation histories is NOT decided.",
+         "Trusted: CPython's ast parser, sa/cfg.py, sa/props/c19.py."),
+ "C20": ("use-kind classification of the guarded attribute per method, dominance of the type check, life-cycle ordering, dirty-flag coverage",
+         "Decides the structural conditions for dict-equivalence and 'closed means closed': each of the eight content "
+         "operations of PickledDict and DBMDict uses (never merely rebinds) the guarded attribute and the marker binds what those "
+         "uses reach; the bytes-only check dominates the store; from_dict binds a fresh copy; sync rewrites the file from the "
+         "data attribute and any skip-flag is set by every mutator; close syncs, closes and installs the marker in a finally; "
+         "create/open refuse existing/missing paths with the right exception; release closes first; the shelf keeps cache and "
+         "backend together in set/delete/clear and flushes with write-back disabled. Equivalence over histories and the dbm "
+         "backend are NOT decided.",
+         "Trusted: CPython's ast parser, sa/cfg.py, sa/props/c20.py."),
 }
 NA_REASON = "check under construction in this session (see DESIGN.md section 3); not yet registered"
 NA = {}
